@@ -31,7 +31,10 @@ META = {
              'four comparison operators. Oracle: truthiness vs the set predicate on the shadow '
              'extents as worded in the property; for the order predicates also intent(y) <= '
              'intent(x); antisymmetry over the trace. Calls made by the library itself (heap '
-             'tuple comparison, tools.maximal) are judged too. distinct_nontrivial = distinct '
+             'tuple comparison, tools.maximal) are judged too. BIGLAT: one Boolean lattice of 16 384 '
+             'concepts in the quick tier (65 536 and 131 072 in the thorough tier) with 20 000 / 60 000 '
+             'sampled ordered pairs, reflexive and covering pairs being strata of their own. '
+             'distinct_nontrivial = distinct '
              '(table, predicate, ordered pair x != y).'),
     'evaluation_counters': ['judged_' + p for p in PREDICATES],
     'required_counters': (['judged_' + p for p in PREDICATES]
@@ -144,7 +147,7 @@ def run_biglat(concepts, case, spec):
     n = len(members)
     picks = [0, 1, n - 1, n - 2] + [rng.randrange(n) for _ in range(60)]
     for a in picks:
-        for b in rng.sample(picks, 12) + list(members[a].upper_neighbors[:2]) + list(members[a].lower_neighbors[:2]):
+        for b in [a] + rng.sample(picks, 12) + list(members[a].upper_neighbors[:2]) + list(members[a].lower_neighbors[:2]):
             x = members[a]
             y = members[b] if isinstance(b, int) else b
             ex, ey = sh.omask(x.extent), sh.omask(y.extent)
@@ -159,8 +162,15 @@ def run_biglat(concepts, case, spec):
                                   None if got is RAISED else bool(got), {'x': repr(x)[:120], 'y': repr(y)[:120], 'biglat': case['fam']})
     # a large uniform sample of ordered pairs for the four order predicates (rare index coincidences)
     masks = {}
-    for _ in range(60000):
+    for t in range(60000 if spec['tier'] == 'thorough' else 20000):
         a, b = rng.randrange(n), rng.randrange(n)
+        if t % 50 == 0:
+            b = a                                       # reflexive pairs are a stratum of their own
+        elif t % 50 == 1 and members[a].upper_neighbors:
+            y = rng.choice(members[a].upper_neighbors)  # ... and so are covering pairs, both ways round
+            b = y.index
+        elif t % 50 == 2 and members[a].lower_neighbors:
+            b = rng.choice(members[a].lower_neighbors).index
         x, y = members[a], members[b]
         ex = masks.get(a)
         if ex is None:
@@ -179,7 +189,7 @@ def run_biglat(concepts, case, spec):
 
 
 def cases(tier, seed, spec):
-    yield from gen.biglat(tier, sizes=(16, 17))
+    yield from gen.biglat(tier, sizes=(16, 17), quick_sizes=(14,))
     yield from gen.ctx_stream(tier, seed)
 
 
